@@ -648,6 +648,81 @@ func sqlStrings(fd *ast.FuncDecl) []string {
 	return out
 }
 
+// ---- token front end (C14): slice expressions, string literals, if-conditions, index expressions and the
+// base64/hex/json/cbor calls of the token functions, in source order (data only; Gonuts/Tie/Token.lean
+// proves them equal to what Model.Token uses) ----
+
+type tokenFnFacts struct {
+	slices  [][3]string // (operand, low, high) of every slice expression
+	strings []string    // string literals
+	conds   []string    // rendered if-conditions
+	indexes []string    // rendered index expressions (x[i])
+	calls   []string    // callees starting with one of the library prefixes, or one of the local decoder names
+}
+
+func tokenFacts(fd *ast.FuncDecl) tokenFnFacts {
+	var f tokenFnFacts
+	if fd == nil || fd.Body == nil {
+		f.strings = []string{"<missing>"}
+		return f
+	}
+	libs := []string{"base64.", "hex.", "json.", "cbor.", "DecodeTokenV3", "DecodeTokenV4"}
+	ast.Inspect(fd.Body, func(n ast.Node) bool {
+		switch x := n.(type) {
+		case *ast.SliceExpr:
+			f.slices = append(f.slices, [3]string{exprString(x.X), exprString(x.Low), exprString(x.High)})
+		case *ast.BasicLit:
+			if x.Kind == token.STRING {
+				if v, err := strconv.Unquote(x.Value); err == nil {
+					f.strings = append(f.strings, v)
+				}
+			}
+		case *ast.IfStmt:
+			f.conds = append(f.conds, exprString(x.Cond))
+		case *ast.IndexExpr:
+			f.indexes = append(f.indexes, exprString(x))
+		case *ast.CallExpr:
+			callee := exprString(x.Fun)
+			for _, l := range libs {
+				if strings.HasPrefix(callee, l) {
+					f.calls = append(f.calls, callee)
+					break
+				}
+			}
+		}
+		return true
+	})
+	return f
+}
+
+func emitTokenFacts(w func(string, ...any), cashuP *pkg) {
+	w("\n/-! ## token functions (C14): slices, literals, conditions, index expressions, library calls -/\n")
+	for _, fn := range [][2]string{
+		{"", "DecodeToken"}, {"", "DecodeTokenV3"}, {"", "DecodeTokenV4"},
+		{"TokenV3", "Serialize"}, {"TokenV4", "Serialize"}, {"TokenV3", "Mint"}, {"TokenV4", "Mint"},
+		{"TokenV3", "Proofs"}, {"TokenV4", "Proofs"}, {"TokenV3", "Amount"}, {"TokenV4", "Amount"},
+		{"", "NewTokenV3"}, {"", "NewTokenV4"},
+	} {
+		name := fn[1]
+		if fn[0] != "" {
+			name = fn[0] + "_" + fn[1]
+		}
+		f := tokenFacts(findFunc(cashuP, fn[0], fn[1]))
+		w("def tok_%s_slices : List (String × String × String) := [", name)
+		for i, r := range f.slices {
+			if i > 0 {
+				w(", ")
+			}
+			w("(%s, %s, %s)", leanStr(r[0]), leanStr(r[1]), leanStr(r[2]))
+		}
+		w("]\n")
+		w("def tok_%s_strings : List String := %s\n", name, leanStrList(f.strings))
+		w("def tok_%s_conds : List String := %s\n", name, leanStrList(f.conds))
+		w("def tok_%s_indexes : List String := %s\n", name, leanStrList(f.indexes))
+		w("def tok_%s_calls : List String := %s\n", name, leanStrList(f.calls))
+	}
+}
+
 func main() {
 	repo := "/repo"
 	outPath := ""
@@ -966,6 +1041,9 @@ func main() {
 		w("  (%s, %s)%s\n", leanStr(m), leanStr(strings.Join(strings.Fields(string(b)), " ")), sep)
 	}
 	w("]\n")
+
+	// --- token functions (C14) ---
+	emitTokenFacts(w, cashuP)
 
 	w("\nend Gonuts.Gen\n")
 
